@@ -2,7 +2,19 @@
 """Builds seeded/<id>/meta.json and seeded/RESULTS.md from the lab logs (latest result per mutant wins)."""
 import glob, json, os, re, sys
 props = {json.loads(l)["id"]: json.loads(l) for l in open("/verif/properties.jsonl")}
-logs = sorted(glob.glob("/tmp/lab*/all*.log"), key=os.path.getmtime)
+# the lab logs are copied into the repository (seeded/lablogs) so that the table can be regenerated after the labs are gone;
+# batches are numbered in the order they were started (allNN.log): a later batch supersedes an earlier one
+os.makedirs("/verif/seeded/lablogs", exist_ok=True)
+for lg in glob.glob("/tmp/lab*/all*.log"):
+    dst = "/verif/seeded/lablogs/%s-%s" % (os.path.basename(os.path.dirname(lg)), os.path.basename(lg))
+    txt = open(lg).read()
+    if not os.path.exists(dst) or open(dst).read() != txt:
+        open(dst, "w").write(txt)
+def _num(pth):
+    m = re.search(r"all(\d+)\.log$", pth)
+    return int(m.group(1)) if m else 0
+# (lab3-all8 / lab3-all11 overlapped in one worktree and reverted each other's patches: discarded)
+logs = sorted([l for l in glob.glob("/verif/seeded/lablogs/*.log") if os.path.basename(l) not in ("lab3-all8.log", "lab3-all11.log")], key=_num)
 res = {}
 for lg in logs:
     txt = open(lg).read()
